@@ -1,6 +1,7 @@
 (* Line protocol for the extracted model of cost/MultiStart.v (property C19).
    Parameters and cost values are integers (Z); `<` on costs is Z.ltb.
      sort   <cands> <rank-table>                         -> sorted candidates
+     choosenan <cands> <rank-table with nan>            -> ok candidate | err E   (float `<` with NaN)
      setp   <circuit> <params>                           -> ok circuit | err E
      inst   <seed_ok> <target_ok> <order> <method> <starts> <circuit> <ms>
             order  = [I ...],  I = [name cap <run-table> <rank-table>]
@@ -50,7 +51,14 @@ let method_of = function
 let ms_of = function I n -> Some (z_of_int n) | A "nonint" -> None | _ -> failwith "ms"
 let starts_of x = List.map zs (list_of x)
 
+(* rank table whose costs may be `nan` *)
+let nanrank_of x : z list -> z option =
+  let t = List.map (fun pr -> match list_of pr with
+     | [a; I k] -> (ints a, Some (z_of_int k)) | [a; A "nan"] -> (ints a, None) | _ -> failwith "nanrank") (list_of x) in
+  fun p -> let k = List.map int_of_z p in (try List.assoc k t with Not_found -> failwith "rank table: unknown candidate")
+
 let handle line = match parse line with
+  | [A "choosenan"; cands; rank] -> vres vzs (choose fltb (nanrank_of rank) (starts_of cands))
   | [A "sort"; cands; rank] ->
       L (List.map vzs (sorted_by Z.ltb (rank_of rank) (starts_of cands)))
   | [A "setp"; c; p] -> vres vcirc (set_params (circ_of c) (zs p))
